@@ -74,7 +74,7 @@ def is_resource_modified(
         etag, _ = unquote_etag(etag)
 
         if if_range is not None and if_range.etag is not None:
-            unmodified = parse_etags(if_range.etag).contains(etag)
+            unmodified = if_range.etag == etag
         else:
             if_none_match = parse_etags(http_if_none_match)
             if if_none_match:
